@@ -215,9 +215,10 @@ def render_decl(d: dict, mod: dict, defined: set) -> str:
         out.append(f"@dataclasses.dataclass({fl})")
         base = f"({d['base']})" if d.get("base") else ""
         out.append(f"class {n}{base}:")
-        if not d["fields"]:
+        own_fields = d["fields"][d.get("own_from", 0):]
+        if not own_fields and not d.get("body"):
             out.append("    pass")
-        for f in d["fields"]:
+        for f in own_fields:
             ann = _ann_src(f["t"], mod, defined, fut)
             if "factory" in f:
                 out.append(f"    {f['n']}: {ann} = dataclasses.field(default_factory={f['factory']})")
